@@ -114,6 +114,90 @@ Proof.
     apply (H2 (i - n)%nat ci); [lia|exact Hci].
 Qed.
 
+(** a_spinout_cfg only looks at the tape pointwise *)
+Lemma a_spinout_zip q h t z :
+  aeq t (abs_of z h) -> a_spinout_cfg P (mkA q h t) -> spinout_cfg P (q, z).
+Proof.
+  intros Ht (H0 & pr & sh & HP & Hb). cbn [a_q a_h a_t] in *.
+  apply (spinout_abs P q z h). unfold a_spinout_cfg. cbn [a_q a_h a_t].
+  split; [rewrite <- (Ht h); exact H0|]. exists pr, sh. split; [exact HP|].
+  intros x Hx. rewrite <- (Ht x). apply Hb. exact Hx.
+Qed.
+
+(** No configuration strictly inside a cycle (times 0 .. stepped-1) is a
+    spin-out configuration: at time 0 because the model tested it, inside a
+    sweep because a canonical tape is not blank beyond a swept 0-block. *)
+Lemma cycle_no_spinout q t h color sh q' t' stepped c :
+  canon_tape t -> arep c q (mkHT h t) ->
+  cp_get comp (q, scan t) = Some (color, sh, q') ->
+  (q =? q') && at_edge t sh = false ->
+  step t sh color (q =? q') = (t', stepped) ->
+  forall i ci, (i < N.to_nat stepped)%nat -> a_steps P i c = Some ci -> ~ a_spinout_cfg P ci.
+Proof.
+  intros Hcan (Hq & Hh & Ht) Hget Hedge Hstep i ci Hi Hci Hsp. cbn [ht_head ht_tape] in *.
+  destruct c as [cq ch ct]. cbn [a_q a_h a_t] in *. subst cq ch.
+  destruct (step_unroll _ _ _ _ _ _ (canon_tape_counts_pos _ Hcan) Hstep)
+    as (j & Hj & Hteq & Hcells & Hcp & Hblk).
+  assert (Hsame : j <> O -> q' = q).
+  { intros Hj0. destruct (q =? q') eqn:E; [apply N.eqb_eq in E; auto|].
+    exfalso. unfold step in Hstep. destruct sh.
+    - destruct (rspan t) as [|[c0 n0] r]; cbn in Hstep.
+      + inversion Hstep; subst. cbn in Hj. lia.
+      + destruct (1 <? n0); inversion Hstep; subst; cbn in Hj; lia.
+    - destruct (lspan t) as [|[c0 n0] r]; cbn in Hstep.
+      + inversion Hstep; subst. cbn in Hj. lia.
+      + destruct (1 <? n0); inversion Hstep; subst; cbn in Hj; lia. }
+  assert (HP : P (q, zc (unroll_tape t)) = Some (color, sh, q')) by (cbn; exact Hget).
+  (* the configuration at time i <= j *)
+  assert (Hcfg : exists ti, ci = mkA q (shiftZ h sh (Z.of_nat i)) ti /\
+                 aeq ti (abs_of (mv_n i sh color (unroll_tape t)) (shiftZ h sh (Z.of_nat i)))).
+  { destruct i as [|i'].
+    - cbn in Hci. inversion Hci; subst ci. exists ct. split.
+      + f_equal. unfold shiftZ; destruct sh; lia.
+      + cbn [mv_n]. replace (shiftZ h sh (Z.of_nat 0)) with h by (unfold shiftZ; destruct sh; lia). exact Ht.
+    - assert (Hj0 : j <> O) by lia. rewrite (Hsame Hj0) in HP.
+      destruct (a_sweep q (scan t) color sh HP (S i') (unroll_tape t) h ct Ht eq_refl) as (ti & A & B).
+      + intros k Hk. apply Hcells. lia.
+      + rewrite A in Hci. inversion Hci; subst ci. exists ti. split; [reflexivity|exact B]. }
+  destruct Hcfg as (ti & -> & Hti).
+  apply (a_spinout_zip _ _ _ _ Hti) in Hsp.
+  destruct Hsp as (Hz0 & pr & sh' & HP' & Hblank).
+  (* the scanned cell at time i is the original scanned colour *)
+  assert (Hscan : zc (mv_n i sh color (unroll_tape t)) = scan t).
+  { destruct i as [|i']; [reflexivity|].
+    destruct sh.
+    - destruct (mv_n_R (S i') color (unroll_tape t)) as (_ & _ & M). rewrite (M i' eq_refl).
+      apply (Hcells i'). lia.
+    - destruct (mv_n_L (S i') color (unroll_tape t)) as (_ & _ & M). rewrite (M i' eq_refl).
+      apply (Hcells i'). lia. }
+  rewrite Hscan in Hz0.
+  assert (Hinstr : Some (pr, sh', q) = Some (color, sh, q')).
+  { rewrite <- HP'. unfold P, to_prog. rewrite Hz0 in Hget. unfold state, colour in *. rewrite Hget. reflexivity. }
+  injection Hinstr as -> -> Hqq. subst q'.
+  (* the side ahead at time i is the i-th suffix of the original side *)
+  assert (Hside : side sh (mv_n i sh color (unroll_tape t)) = skipn i (side sh (unroll_tape t))).
+  { destruct sh; cbn [side].
+    - destruct (mv_n_R i color (unroll_tape t)) as (_ & M & _). exact M.
+    - destruct (mv_n_L i color (unroll_tape t)) as (_ & M & _). exact M. }
+  rewrite Hside in Hblank.
+  destruct i as [|i'].
+  - (* time 0: contradicts the at_edge test *)
+    cbn [skipn] in Hblank. rewrite N.eqb_refl in Hedge. cbn [andb] in Hedge.
+    assert (at_edge t sh = true); [|congruence].
+    apply (at_edge_spec t sh Hcan). split; [exact Hz0|exact Hblank].
+  - (* inside the sweep: the tape is not blank beyond the swept block *)
+    destruct (Hblk ltac:(lia)) as (c0 & n0 & rest & Hsp & Hc0 & Hn0).
+    assert (Hsideu : side sh (unroll_tape t) = unroll_span ((c0, n0) :: rest)).
+    { destruct sh; cbn [side unroll_tape zl zr]; rewrite Hsp; reflexivity. }
+    assert (Hb' : all_blank (skipn j (side sh (unroll_tape t)))).
+    { intro k. rewrite cell_skipn. specialize (Hblank (j - S i' + k)%nat). rewrite cell_skipn in Hblank.
+      rewrite <- Hblank. f_equal. lia. }
+    rewrite Hsideu, unroll_cons, Hn0, skipn_repeat_app in Hb'.
+    refine (canon_nonblank_beyond c0 n0 rest _ _ Hb').
+    + destruct Hcan as [Hl Hr]. destruct sh; rewrite Hsp in *; assumption.
+    + congruence.
+Qed.
+
 Lemma a_never_halts_from T c0 c : a_steps P T c0 = Some c -> a_never_halts P c -> a_never_halts P c0.
 Proof.
   intros HT Hn m. destruct (Hn m) as [c' Hc'].
@@ -129,7 +213,8 @@ Definition RInv (s : rstate) : Prop :=
   exists T n cref ccur,
     a_steps P T c_start = Some cref /\ arep cref (rs_ref_state s) (rs_ref_tape s) /\
     a_steps P n cref = Some ccur /\ arep ccur (rs_state s) (rs_tape s) /\
-    stays P n cref (rs_leftmost s) (rs_rightmost s).
+    stays P n cref (rs_leftmost s) (rs_rightmost s) /\
+    (forall i ci, (i < T + n)%nat -> a_steps P i c_start = Some ci -> ~ a_spinout_cfg P ci).
 
 Definition r_init : rstate := mkR 1 ht_init_stepped 1 ht_init_stepped 1 1 1 1.
 
@@ -139,15 +224,17 @@ Proof.
   exists O, O, c_start, c_start. cbn [rs_ref_state rs_ref_tape rs_state rs_tape rs_leftmost rs_rightmost r_init].
   assert (R : arep c_start 1 ht_init_stepped).
   { unfold arep, c_start, acfg. cbn [a_q a_h a_t]. repeat split. }
-  split; [reflexivity|]. split; [exact R|]. split; [reflexivity|]. split; [exact R|].
-  intros i ci Hi Hci. assert (i = O) by lia. subst i. cbn in Hci. inversion Hci; subst. cbn. lia.
+  split; [reflexivity|]. split; [exact R|]. split; [reflexivity|]. split; [exact R|]. split.
+  - intros i ci Hi Hci. assert (i = O) by lia. subst i. cbn in Hci. inversion Hci; subst. cbn. lia.
+  - intros i ci Hi. lia.
 Qed.
 
 (** what each outcome of one loop iteration means *)
 Lemma rec_body_sound s : RInv s ->
   match rec_body comp s with
   | inl s' => RInv s'
-  | inr RRecur => exists T cref, a_steps P T c_start = Some cref /\ a_never_halts P cref
+  | inr RRecur => (exists T cref, a_steps P T c_start = Some cref /\ a_never_halts P cref) /\
+                   (forall m cm, a_steps P m c_start = Some cm -> ~ a_spinout_cfg P cm)
   | inr RSpinout => exists T c, a_steps P T c_start = Some c /\ arep c (rs_state s) (rs_tape s) /\
                      exists color sh, cp_get comp (rs_state s, scan (ht_tape (rs_tape s))) = Some (color, sh, rs_state s)
                                       /\ at_edge (ht_tape (rs_tape s)) sh = true
@@ -156,7 +243,8 @@ Lemma rec_body_sound s : RInv s ->
   | inr RLimit => False
   end.
 Proof.
-  intros (Hcan & Hcanr & T & n & cref & ccur & HT & Hrref & Hn & Hrcur & Hstays).
+  intros (Hcan & Hcanr & T & n & cref & ccur & HT & Hrref & Hn & Hrcur & Hstays & Hns).
+  assert (HTn : a_steps P (T + n) c_start = Some ccur) by (rewrite a_steps_add, HT; exact Hn).
   unfold rec_body.
   set (tp := rs_tape s) in *. set (q := rs_state s) in *.
   destruct (cp_get comp (q, scan (ht_tape tp))) as [[[color sh] next]|] eqn:Eget.
@@ -173,16 +261,16 @@ Proof.
   destruct snap as [[[[ref_state ref_tape] lm] rm] reset] eqn:Esnap.
   assert (Hsnap : canon_tape (ht_tape ref_tape) /\
      exists T' n' cref', a_steps P T' c_start = Some cref' /\ arep cref' ref_state ref_tape /\
-       a_steps P n' cref' = Some ccur /\ stays P n' cref' lm rm).
+       a_steps P n' cref' = Some ccur /\ stays P n' cref' lm rm /\ (T' + n' = T + n)%nat).
   { unfold snap in Esnap. destruct (rs_reset s =? 0).
     - inversion Esnap; subst. split; [exact Hcan|].
       exists (T + n)%nat, O, ccur. split; [rewrite a_steps_add, HT; exact Hn|].
-      split; [exact Hrcur|]. split; [reflexivity|].
+      split; [exact Hrcur|]. split; [reflexivity|]. split; [|lia].
       intros i ci Hi Hci. assert (i = O) by lia. subst i. cbn in Hci. inversion Hci; subst.
       destruct Hrcur as (_ & Hh & _). rewrite Hh. lia.
     - inversion Esnap; subst. split; [exact Hcanr|].
-      exists T, n, cref. split; [exact HT|]. split; [exact Hrref|]. split; [exact Hn|exact Hstays]. }
-  destruct Hsnap as (Hcanr' & T' & n' & cref' & HT' & Hrref' & Hn' & Hstays').
+      exists T, n, cref. split; [exact HT|]. split; [exact Hrref|]. split; [exact Hn|]. split; [exact Hstays|reflexivity]. }
+  destruct Hsnap as (Hcanr' & T' & n' & cref' & HT' & Hrref' & Hn' & Hstays' & HTn').
   unfold ht_step. destruct tp as [h t] eqn:Etp. cbn [ht_tape ht_head] in *.
   destruct (step t sh color (q =? next)) as [t' stepped] eqn:Estep.
   destruct (cycle_abs q t h color sh next t' stepped ccur Hcan Hrcur Eget Estep)
@@ -209,6 +297,10 @@ Proof.
       assert (0 <= Z.of_nat i <= Z.of_N stepped)%Z by lia.
       unfold shiftZ in *. destruct sh; lia. }
   assert (Hrun' : a_steps P (n' + k) cref' = Some ccur') by (rewrite a_steps_add, Hn'; exact Hrun).
+  assert (Hns' : forall i ci, (i < T' + (n' + k))%nat -> a_steps P i c_start = Some ci -> ~ a_spinout_cfg P ci).
+  { intros i ci Hi Hci. destruct (Nat.lt_ge_cases i (T + n)) as [Hlt|Hge]; [exact (Hns i ci Hlt Hci)|].
+    replace i with ((T + n) + (i - (T + n)))%nat in Hci by lia. rewrite a_steps_add, HTn in Hci.
+    refine (cycle_no_spinout q t h color sh next t' stepped ccur Hcan Hrcur Eget Esp Estep _ ci _ Hci). lia. }
   cbn [ht_head].
   assert (Hpair : (if (curr <? lm)%Z then (curr, rm) else if (rm <? curr)%Z then (lm, curr) else (lm, rm))
                   = (lm', rm')).
@@ -218,27 +310,36 @@ Proof.
   destruct ((next =? ref_state) && aligns_with (mkHT curr t') ref_tape lm' rm') eqn:Eal.
   - (* recurrence *)
     apply andb_prop in Eal as [Eq Eal]. apply N.eqb_eq in Eq. subst next.
-    exists T', cref'. split; [exact HT'|].
     destruct Hrref' as (Rq & Rh & Rt). destruct Hrep' as (Cq & Ch & Ct).
     cbn [ht_head ht_tape] in *.
     assert (Hlr : (lm' <= ht_head ref_tape <= rm')%Z).
     { pose proof (Hstays'' O cref' ltac:(lia) eq_refl) as X. rewrite Rh in X. exact X. }
     destruct (aligns_with_abs (mkHT curr t') ref_tape lm' rm' Eal Hcan' Hcanr' Hlr) as (W1 & W2 & W3).
     cbn [ht_head ht_tape] in *.
-    apply (translated_cycle P cref' ccur' (n' + k) lm' rm' (curr - ht_head ref_tape)).
-    + lia.
-    + exact Hrun'.
-    + exact Hstays''.
-    + congruence.
-    + rewrite Ch, Rh. lia.
-    + intros x Hx. rewrite (Ct _), (Rt _). apply W1. exact Hx.
-    + intros Hd x Hx. rewrite (Ct _), (Rt _). apply W2; assumption.
-    + intros Hd x Hx. rewrite (Ct _), (Rt _). apply W3; assumption.
+    assert (Hd1 : (1 <= n' + k)%nat) by lia.
+    assert (Hd4 : a_q ccur' = a_q cref') by congruence.
+    assert (Hd5 : a_h ccur' = (a_h cref' + (curr - ht_head ref_tape))%Z) by (rewrite Ch, Rh; lia).
+    assert (Hd6 : forall x, (lm' <= x <= rm')%Z -> a_t ccur' (x + (curr - ht_head ref_tape))%Z = a_t cref' x).
+    { intros x Hx. rewrite (Ct _), (Rt _). apply W1. exact Hx. }
+    assert (Hd7 : (0 < curr - ht_head ref_tape)%Z -> forall x, (rm' < x)%Z ->
+                  a_t ccur' (x + (curr - ht_head ref_tape))%Z = a_t cref' x).
+    { intros Hd x Hx. rewrite (Ct _), (Rt _). apply W2; assumption. }
+    assert (Hd8 : (curr - ht_head ref_tape < 0)%Z -> forall x, (x < lm')%Z ->
+                  a_t ccur' (x + (curr - ht_head ref_tape))%Z = a_t cref' x).
+    { intros Hd x Hx. rewrite (Ct _), (Rt _). apply W3; assumption. }
+    split.
+    + exists T', cref'. split; [exact HT'|].
+      exact (translated_cycle P cref' ccur' (n' + k) lm' rm' _ Hd1 Hrun' Hstays'' Hd4 Hd5 Hd6 Hd7 Hd8).
+    + intros m cm Hm. destruct (Nat.lt_ge_cases m T') as [Hlt|Hge].
+      * apply (Hns' m cm); [lia|exact Hm].
+      * replace m with (T' + (m - T'))%nat in Hm by lia. rewrite a_steps_add, HT' in Hm.
+        refine (translated_cycle_no_spinout P cref' ccur' (n' + k) lm' rm' _ Hd1 Hrun' Hstays'' Hd4 Hd5 Hd6 Hd7 Hd8 _ _ cm Hm).
+        intros i ci Hi Hci. apply (Hns' (T' + i)%nat ci); [lia|]. rewrite a_steps_add, HT'. exact Hci.
   - (* continue *)
     split; [exact Hcan'|]. split; [exact Hcanr'|].
     exists T', (n' + k)%nat, cref', ccur'.
     cbn [rs_ref_state rs_ref_tape rs_state rs_tape rs_leftmost rs_rightmost].
-    split; [exact HT'|]. split; [exact Hrref'|]. split; [exact Hrun'|]. split; [exact Hrep'|exact Hstays''].
+    split; [exact HT'|]. split; [exact Hrref'|]. split; [exact Hrun'|]. split; [exact Hrep'|]. split; [exact Hstays''|exact Hns'].
 Qed.
 End Rec.
 
@@ -250,7 +351,8 @@ Let P := to_prog comp.
 Definition outcome_ok (r : recres) : Prop :=
   match r with
   | RLimit => False
-  | RRecur => exists T cref, a_steps P T (c_start) = Some cref /\ a_never_halts P cref
+  | RRecur => (exists T cref, a_steps P T (c_start) = Some cref /\ a_never_halts P cref) /\
+              (forall m cm, a_steps P m c_start = Some cm -> ~ a_spinout_cfg P cm)
   | RSpinout => exists T c q ht, a_steps P T c_start = Some c /\ arep c q ht /\ canon_tape (ht_tape ht) /\
                   exists color sh, cp_get comp (q, scan (ht_tape ht)) = Some (color, sh, q)
                                    /\ at_edge (ht_tape ht) sh = true
@@ -306,7 +408,7 @@ Theorem rec_sound lim :
   P (0, 0) = Some (1, true, 1) ->
   match quick_term_or_rec comp lim with
   | RLimit => True
-  | RRecur => never_halts P init_config
+  | RRecur => never_halts P init_config /\ never_spins_out P init_config
   | RSpinout => exists n, spins_out_at P init_config n
   | RUndefined sl => exists n, halts_at P init_config n sl
   end.
@@ -317,11 +419,25 @@ Proof.
   destruct (iter_nat (N.to_nat (lim - 1)) (rec_body comp) r_init) as [s'|r]; [exact I|].
   destruct r as [| | |sl]; cbn [outcome_ok] in H.
   - exact I.
-  - destruct H as (T & cref & HT & Hnh).
+  - destruct H as ((T & cref & HT & Hnh) & Hnsp).
     assert (Hs : a_never_halts P c_start) by (eapply a_never_halts_from; eassumption).
-    apply (never_halts_abs P 1 z_start 1%Z) in Hs.
-    intro n. destruct n as [|n]; [eexists; reflexivity|].
-    cbn [tm_steps]. rewrite (start_step Hnf). apply Hs.
+    apply (never_halts_abs P 1 z_start 1%Z) in Hs. split.
+    + intro n. destruct n as [|n]; [eexists; reflexivity|].
+      cbn [tm_steps]. rewrite (start_step Hnf). apply Hs.
+    + intros n c Hn Hsp. destruct n as [|n].
+      * (* time 0: the first instruction 1RB changes the state *)
+        cbn in Hn. inversion Hn; subst c. destruct Hsp as (_ & pr & sh & HP & _).
+        unfold state, colour in *. rewrite Hnf in HP. discriminate.
+      * cbn [tm_steps] in Hn. rewrite (start_step Hnf) in Hn. destruct c as [q z].
+        pose proof (zipper_abs_steps P n 1 z_start 1%Z) as Hz.
+        change (mkA 1 1%Z (abs_of z_start 1%Z)) with c_start in Hz.
+        match type of Hz with match ?x with _ => _ end => set (r := x) in Hz end.
+        change (tm_steps P n (1, z_start)) with r in Hn. clearbody r. subst r.
+        destruct Hz as (h' & t' & Ha & He).
+        apply (Hnsp n _ Ha). unfold a_spinout_cfg. cbn [a_q a_h a_t].
+        apply (spinout_abs P q z h') in Hsp. destruct Hsp as (S0 & pr & sh & SP & SB).
+        cbn [a_q a_h a_t] in *. split; [rewrite (He h'); exact S0|].
+        exists pr, sh. split; [exact SP|]. intros x Hx. rewrite (He x). apply SB. exact Hx.
   - destruct H as (T & c & q & ht & HT & Hrep & Hcan & color & sh & Hget & Hedge).
     destruct (reach_zipper T c q ht HT Hrep) as (z & Hz & Hzeq).
     exists (S T). unfold spins_out_at. exists (q, z). split.
